@@ -79,6 +79,31 @@ func c12At(text, class string, off, n int) func(Resp) string {
 	}
 }
 
+// c12In: like c12At for a construct that may span several lines: the reported position,
+// taken as a byte offset of text, lies in [off, off+n).
+func c12In(text, class string, off, n int) func(Resp) string {
+	return func(i Resp) string {
+		if i["class"] != class {
+			return fmt.Sprintf("expected a %s error at offset %d, got %s", class, off, i.String())
+		}
+		if w := c12Consistent(text, i); w != "" {
+			return w
+		}
+		line, _ := strconv.Atoi(i["line"])
+		col, _ := strconv.Atoi(i["col"])
+		at := col
+		for _, l := range strings.Split(text, "\n")[:line-1] {
+			at += len(l) + 1
+		}
+		if at < off || at >= off+n {
+			wl, wc, _ := c12LineOf(text, off)
+			el, ec, _ := c12LineOf(text, off+n-1)
+			return fmt.Sprintf("position line %d col %d does not point into the fault, which spans line %d col %d .. line %d col %d", line, col, wl, wc, el, ec)
+		}
+		return ""
+	}
+}
+
 func c12IsKeyword(w string) bool {
 	for _, k := range c13Keywords {
 		if k == w {
@@ -634,6 +659,220 @@ func c12ThroughBinary(r *rand.Rand, tier string, emit func(Case)) {
 	}
 }
 
+// ---- selector faults of every kind, in selector texts that look nothing like the program -------
+
+// expressions that evaluate without a fault but whose VALUE cannot become a root (a method
+// bound to its receiver, a builtin): the error is raised by the final copy, after the
+// selector's own evaluation
+var c12SelCopyExprs = []string{
+	"$.a.length", "$.b.pluck", "printf", "json", "num", "[1].push", "'x'.upper", "(1).floor", "$.a.sort", "$.a[0].floor", "$.b.c.split", "$['a'].pop",
+	"($.a.length)", "$.a.contains", "$.a.popfirst", "$.b.c.lower", "$.b.length", "$.a[1].round", "$.a[0].ceil", "\"é日本\".length", "$.b.c.upper", "[$.a][0].push",
+	"$\n  .a\n  .length", "$.a # pick the array é\n  .push", "$ .b\r\n\t.pluck", "$.b\n\n\n.c\n.split", "match (1) { 1 => num }", "match ($.a) {\n  [p, q] => p.floor\n}",
+	"(\n  json\n)", "{k: 1}.pluck", "[1, 2,\n 3].length", "$.a[0 +\n 1].floor", "((printf))", "$.b['c'].length",
+}
+
+// the same on the SECOND value of the input only (the first value selects fine)
+var c12SelCopyLater = []string{"$.a.push", "$.a.pop", "$.a.sort", "$.a.contains", "$.a\n  .popfirst", "$.d.floor", "$['d']\n.round"}
+var c12SelRuntimeLater = []string{"1 / $.d", "7 % $.d", "'abc' ~ $.re", "$.a[0 - $.n]", "$.d / $.d"}
+
+// valid selectors (no strings, comments or operators that an inserted '=>' could merge with)
+var c12SelValid = []string{"$.a", "$.b.c", "$.a[0]", "$\n  .b\n  .c", "[$.a,\n $.b]", "$.a.length()", "{k: $.a,\n j: $.b}", "$.b.pluck(\n  $.b.c\n)", "match ($.a) {\n  [p, q] => p\n}"}
+
+// programs whose lines look nothing like a selector's: one line, three lines, many lines,
+// leading blank lines, CR LF, empty
+var c12SelProgs = []string{
+	"BEGIN { print 'b' }\n{ print $ }\nEND { print 'e' }",
+	"{ print $ }",
+	"\n\n# program comment\nBEGIN { n = 0 } # P4\n{ n = n + 1; print n, $ } # P5\n\n\nEND { print n } # P8\n",
+	"BEGIN { print 'b' }\r\n{ print 'v', $ }\r\n",
+	"BEGIN {\n  n = 0\n}\n\n{\n  n = n + 1\n  if (n > 0) {\n    print n, $\n  }\n}\n\nEND {\n  print 'end', n\n}\n",
+	"BEGIN { n = 0 }\n{ n = n + 1 }\nEND { print n }",
+	"",
+	"      { print $ } # everything far to the right of any selector column                                                  ",
+}
+
+const c12SelDoc = `{"a": [1, 2], "b": {"c": "x"}}`
+const c12SelDocs2 = `{"a": "str", "b": {"c": "x"}, "d": 1, "re": "b", "n": 0}` + "\n" + `{"a": [1, 2], "b": {"c": "x"}, "d": 0, "re": "(", "n": 9}`
+
+func c12SelectorFaultKinds(r *rand.Rand, tier string, emit func(Case)) {
+	fields := []string{"class", "line", "col", "src", "out"}
+	layout := func(expr string) (text string, off int, lead, trail string) {
+		lead, trail = pick(r, c12Lead), pick(r, c12Trail)
+		if chance(r, 0.15) {
+			lead = strings.Repeat(pick(r, []string{"\n", "\r\n", "# c\n", "  \n"}), 1+r.Intn(12))
+		}
+		if strings.Contains(trail, "#") && strings.ContainsAny(expr[strings.LastIndexByte(expr, '\n')+1:], "'\"") {
+			trail = "\n"
+		}
+		return lead + expr + trail, len(lead), lead, trail
+	}
+	// one case: the fault sits in selector number `which` of sels
+	one := func(kind, what, prog string, sels []string, which int, doc string, oracle func(Resp) string) {
+		text := sels[which]
+		nl := strings.Count(text, "\n") + 1
+		col := fmt.Sprintf("selector of %d line(s), program of %d", nl, strings.Count(prog, "\n")+1)
+		if nl > 3 {
+			col = fmt.Sprintf("selector of 4+ lines, program of %d", strings.Count(prog, "\n")+1)
+		}
+		meta := metaProg(prog, "selector", text, "fault", what, "row", kind, "col", col, "input", doc)
+		if len(sels) > 1 {
+			meta["selectors"] = fmt.Sprintf("%d selectors, the fault is in number %d; the other: %q", len(sels), which+1, sels[1-which])
+		}
+		emit(Case{Req: RunReq(prog, sels, []File{{Name: "in.json", Data: []byte(doc)}}, false), Fields: fields, Meta: meta, Oracle: oracle, NonTrivial: c12ErrNT})
+	}
+	// the selector list around the faulty text: alone, before or after a faultless one of a different shape
+	around := func(text string) ([]string, int) {
+		switch r.Intn(5) {
+		case 0:
+			return []string{pick(r, []string{"$.b", "\n\n\n\n$.a\n", "  $  ", "# only a comment line first\n$.b.c"}), text}, 1
+		case 1:
+			return []string{text, pick(r, []string{"$.b", "\n\n$.a"})}, 0
+		}
+		return []string{text}, 0
+	}
+	reps := tierN(tier, 24, 120)
+	// (1) the final copy of the selected value fails
+	for _, e := range c12SelCopyExprs {
+		for rep := 0; rep < reps; rep++ {
+			text, off, _, _ := layout(e)
+			sels, which := around(text)
+			one("copy of the selected value", "the value of "+e+" cannot become a root", pick(r, c12SelProgs), sels, which, c12SelDoc, c12In(text, "runtime", off, len(e)))
+		}
+	}
+	// (2) ... only for the second value of the input
+	for _, e := range c12SelCopyLater {
+		for rep := 0; rep < reps/2+1; rep++ {
+			text, off, _, _ := layout(e)
+			sels, which := around(text)
+			one("copy of the selected value, second input value", "the value of "+e+" cannot become a root for the second value", pick(r, c12SelProgs), sels, which, c12SelDocs2, c12In(text, "runtime", off, len(e)))
+		}
+	}
+	for _, e := range c12SelRuntimeLater {
+		for rep := 0; rep < reps/2+1; rep++ {
+			text, off, _, _ := layout(e)
+			sels, which := around(text)
+			one("runtime fault inside the expression, second input value", e+" faults for the second value", pick(r, c12SelProgs), sels, which, c12SelDocs2, c12In(text, "runtime", off, len(e)))
+		}
+	}
+	// (3) a runtime fault inside the expression
+	wraps := []c12Wrap{{"", "", false, ""}, {"$.a[0] + ", "", true, ""}, {"[$.a,\n  ", "]", false, ""}, {"$.b\n\n  .c + 'é' + ", "", true, ""}, {"{k:\r\n\t", "}", false, ""}, {"nf = 3 + ", "", true, ""}, {"$.a.contains(\n", "\n)", false, ""}}
+	for _, f := range c12Faults {
+		if f.stmt {
+			continue
+		}
+		for rep := 0; rep < tierN(tier, 8, 40); rep++ {
+			w := pick(r, wraps)
+			e := w.pre
+			if w.paren {
+				e += "("
+			}
+			foff := len(e)
+			e += f.text
+			if w.paren {
+				e += ")"
+			}
+			e += w.post
+			text, off, _, _ := layout(e)
+			sels, which := around(text)
+			flen := len(f.text)
+			at := off + foff
+			one("runtime fault inside the expression", f.what+": "+f.text, pick(r, c12SelProgs), sels, which, c12SelDoc, func(i Resp) string {
+				if i["class"] == "runtime" || i["class"] == "syntax" {
+					if w := c12Consistent(text, i); w != "" {
+						return w
+					}
+				}
+				if i["class"] == "runtime" {
+					return c12In(text, "runtime", at, flen)(i)
+				}
+				return ""
+			})
+		}
+	}
+	// (4) syntax and lexical faults
+	for _, e := range c12SelValid {
+		for rep := 0; rep < tierN(tier, 30, 150); rep++ {
+			text, off, _, trail := layout(e)
+			o := off + r.Intn(len(e)+1)
+			if o > 0 && o < len(text) && text[o-1] == '=' && text[o] == '>' {
+				o++ // never split the arrow of a match arm: "= <x> >" fails earlier, at the assignment
+			}
+			var mut, what, kind string
+			var at, n int
+			mode := rep % 3
+			if mode == 0 && strings.Contains(e, "=>") {
+				mode = 1 // an inserted => next to the arrow of a match arm is not the first unexpected token
+			}
+			switch mode {
+			case 0:
+				pre := pick(r, []string{"", " ", "\t"})
+				mut, at, n, kind, what = text[:o]+pre+"=>"+pick(r, []string{"", " "})+text[o:], o+len(pre), 2, "syntax: unexpected token", fmt.Sprintf("=> at offset %d", o)
+			case 1:
+				b := pick(r, c12BadSeqs)
+				ld := ""
+				if o > 0 && c13WordByte(text[o-1]) && len(b.seq) > 1 {
+					ld = " "
+				}
+				mut, at, n = text[:o]+ld+b.seq+text[o:], o+b.at, 1
+				if len(b.seq) > 1 {
+					at, n = o+len(ld), len(b.seq)
+				}
+				kind, what = "lexical: illegal character", fmt.Sprintf("%q at offset %d", b.seq, o)
+			default:
+				if strings.Contains(trail, "#") {
+					continue
+				}
+				q := pick(r, []string{"'", `"`})
+				mut, at, n, kind, what = text[:o]+q+text[o:], o+1, 1, "lexical: unterminated string", fmt.Sprintf("opening %s at offset %d", q, o)
+			}
+			sels, which := around(mut)
+			one(kind, what, pick(r, c12SelProgs), sels, which, c12SelDoc, c12At(mut, "syntax", at, n))
+		}
+	}
+	// (5) the real binary with -r: the diagnostic on stderr quotes the selector's line
+	if os.Getenv("JQAWK_BIN") == "" {
+		return
+	}
+	for rep := 0; rep < tierN(tier, 40, 400); rep++ {
+		var e, kind string
+		class := "runtime"
+		switch rep % 4 {
+		case 0, 1:
+			e, kind = pick(r, c12SelCopyExprs), "binary -r: copy of the selected value"
+		case 2:
+			e, kind = "$.a[0] + ("+pick(r, []string{"1 / 0", "7 % 0", "[1] < 2", "$nope", "'abc' ~ '('"})+")", "binary -r: runtime fault inside the expression"
+		default:
+			e, kind, class = pick(r, c12SelValid)+" =>", "binary -r: syntax", "syntax"
+		}
+		text, off, _, _ := layout(e)
+		if class == "syntax" {
+			text = text[:off+len(e)]
+		}
+		if strings.HasPrefix(text, "-") {
+			continue
+		}
+		prog := pick(r, c12SelProgs)
+		if prog == "" {
+			prog = "{ print }"
+		}
+		argv := []string{"-r", text, prog, "in.json"}
+		at, n := off, len(e)
+		if class == "syntax" {
+			at, n = off+len(e)-2, 2
+		}
+		emit(Case{Req: CliReq(argv, nil, false, []CliFile{{Name: "in.json", Data: []byte(c12SelDoc)}}, ""), Fields: []string{"exit", "out", "err"},
+			Meta:       metaProg(prog, "selector", text, "fault", e, "row", kind, "col", "the binary's stderr"),
+			NonTrivial: func(i Resp) bool { return i["exit"] == "1" },
+			Oracle: func(i Resp) string {
+				d, w := c12DiagResp(i)
+				if w != "" {
+					return w
+				}
+				return c12In(text, class, at, n)(d)
+			}})
+	}
+}
+
 func init() {
 	register(Family{
 		Name: "pos-every-offset", Prop: "C12",
@@ -903,6 +1142,11 @@ func init() {
 				}
 			}
 		},
+	})
+	register(Family{
+		Name: "selector-fault-kinds", Prop: "C12",
+		Rule: "every kind of fault a -r selector run can end in: the final COPY of the selected value failing (bound methods of arrays / objects / strings / numbers, the builtins printf / json / num, directly, parenthesised, out of match arms, in expressions spread over several lines), the same only for the SECOND value of the input, every runtime fault kind inside the expression (7 forms), an unexpected '=>', an illegal byte sequence, an unterminated string; the selector text has leading blank lines (up to 12), indentation, comment lines, CR LF, a #! line, trailing blanks / comments, and is used alone or before / after a faultless selector of another shape; the program is one of 8 texts of 1-15 lines (also empty, CR LF, leading blank lines) none of whose lines occurs in a selector. Oracle: line / col / quoted line are those of the fault in the SELECTOR text as generated (c12At); class, line, col, src and stdout compared with the model; plus the real binary with -r (diagnostic on stderr parsed back)",
+		Gen:  c12SelectorFaultKinds,
 	})
 	register(Family{
 		Name: "runtime-fault-position", Prop: "C12",
